@@ -1,4 +1,6 @@
+use std::collections::HashSet;
 use std::ops::ControlFlow;
+use std::sync::Mutex;
 #[cfg(not(tablegen_lsp_verif))]
 use std::sync::{Arc, RwLock};
 #[cfg(tablegen_lsp_verif)]
@@ -23,7 +25,7 @@ use tokio::task::{self};
 use crate::verif_hooks::task;
 
 use ide::analysis::{Analysis, AnalysisHost};
-use ide::file_system::FileSystem;
+use ide::file_system::{FileId, FileSystem};
 
 use crate::vfs::{UrlExt, Vfs};
 use crate::{from_proto, to_proto};
@@ -33,6 +35,8 @@ pub struct Server {
     vfs: Arc<RwLock<Vfs>>,
     client: ClientSocket,
     diagnostic_version: i32,
+    /// files of the workspace the diagnostics were last published for
+    published_files: Arc<Mutex<HashSet<FileId>>>,
 }
 
 impl Server {
@@ -65,6 +69,7 @@ impl Server {
             vfs: Arc::new(RwLock::new(Vfs::new())),
             client,
             diagnostic_version: 0,
+            published_files: Arc::default(),
         }
     }
 }
@@ -307,8 +312,25 @@ impl Server {
     fn update_diagnostics(&mut self) {
         let diag_version = self.bump_diagnostic_version();
         let mut client = self.client.clone();
+        let published_files = Arc::clone(&self.published_files);
         self.spawn_with_snapshot((), move |snap, _| {
-            for (file_id, diagnostics) in snap.analysis.diagnostics() {
+            let diagnostic_map = snap.analysis.diagnostics();
+
+            // a file that has left the workspace (its include was removed, another document
+            // became the root) must not keep the diagnostics published for it earlier
+            let left_files: Vec<FileId> = {
+                let mut published_files = published_files.lock().unwrap();
+                let left_files = published_files
+                    .iter()
+                    .filter(|file_id| !diagnostic_map.contains_key(file_id))
+                    .copied()
+                    .collect();
+                *published_files = diagnostic_map.keys().copied().collect();
+                left_files
+            };
+            let no_diagnostics = left_files.into_iter().map(|file_id| (file_id, Vec::new()));
+
+            for (file_id, diagnostics) in no_diagnostics.chain(diagnostic_map) {
                 let line_index = snap.analysis.line_index(file_id);
                 let lsp_diags = diagnostics
                     .into_iter()
